@@ -725,6 +725,105 @@ func checkNoDuplicates(s *hx.Seq) {
 	}
 }
 
+// checkNoDuplicatesLifecycle: the same statement over the whole life of a Collection item - updates, removal,
+// re-creation. What a subscriber holds for an id ends with the item's removal (which it is always told of: a
+// removal is no "equivalent value"), and an item created again is news however much it looks like the one it held.
+func checkNoDuplicatesLifecycle(s *hx.Seq) {
+	mk := func(st traits.OnOff_State, sec int64) *traits.PullOnOffResponse_Change {
+		return &traits.PullOnOffResponse_Change{Name: "n", ChangeTime: &timestamppb.Timestamp{Seconds: sec}, OnOff: &traits.OnOff{State: st}}
+	}
+	type wr struct {
+		kind string // upd | del | add
+		m    *traits.PullOnOffResponse_Change
+	}
+	alphabet := []wr{{"upd", mk(traits.OnOff_ON, 1)}, {"upd", mk(traits.OnOff_ON, 2)}, {"upd", mk(traits.OnOff_OFF, 2)}, {"del", nil}, {"add", mk(traits.OnOff_ON, 5)}, {"add", mk(traits.OnOff_OFF, 6)}}
+	var seqs [][]int
+	var rec func(cur []int)
+	rec = func(cur []int) {
+		if len(cur) > 0 {
+			seqs = append(seqs, append([]int{}, cur...))
+		}
+		if len(cur) == 4 {
+			return
+		}
+		for i := range alphabet {
+			rec(append(cur, i))
+		}
+	}
+	rec(nil)
+	for _, sq := range seqs {
+		for _, updatesOnly := range []bool{false, true} {
+			s.Eval(1)
+			s.Trans(len(sq))
+			ctx, cancel := context.WithCancel(context.Background())
+			c := resource.NewCollection(resource.WithNoDuplicates(), resource.WithInitialRecord("a", mk(traits.OnOff_OFF, 0)))
+			ch := c.Pull(ctx, resource.WithBackpressure(true), resource.WithUpdatesOnly(updatesOnly))
+			var got []string
+			done := make(chan struct{})
+			go func() {
+				defer close(done)
+				for e := range ch {
+					if e.Id == "end" {
+						return
+					}
+					st := "-"
+					if e.NewValue != nil {
+						st = e.NewValue.(*traits.PullOnOffResponse_Change).OnOff.GetState().String()
+					}
+					k := e.ChangeType.String()
+					if e.SeedValue {
+						k = "SEED"
+					}
+					got = append(got, k+":"+st)
+				}
+			}()
+			// reference: the item (exists, state) and what the subscriber holds for it
+			exists, state := true, "OFF"
+			holds, held := !updatesOnly, "OFF"
+			var want []string
+			if !updatesOnly {
+				want = append(want, "SEED:OFF")
+			}
+			for _, i := range sq {
+				w := alphabet[i]
+				switch w.kind {
+				case "upd":
+					if _, err := c.Update("a", proto.Clone(w.m)); (err == nil) != exists {
+						s.Fail(fmt.Sprintf("no-duplicates-lifecycle write %v", sq), fmt.Sprintf("Update on an item that exists=%v: %v", exists, err), nil)
+					}
+					if exists {
+						state = w.m.OnOff.State.String()
+						if !holds || held != state {
+							want = append(want, "UPDATE:"+state)
+							holds, held = true, state
+						}
+					}
+				case "del":
+					c.Delete("a", resource.WithAllowMissing(true))
+					if exists {
+						exists = false
+						want = append(want, "REMOVE:-")
+						holds = false
+					}
+				case "add":
+					c.Add("a", proto.Clone(w.m))
+					if !exists {
+						exists, state = true, w.m.OnOff.State.String()
+						want = append(want, "ADD:"+state)
+						holds, held = true, state
+					}
+				}
+			}
+			c.Add("end", mk(traits.OnOff_ON, 9))
+			<-done
+			cancel()
+			if fmt.Sprint(got) != fmt.Sprint(want) {
+				s.Fail(fmt.Sprintf("no-duplicates-lifecycle updatesOnly=%v %v", updatesOnly, sq), fmt.Sprintf("writes %v (0: upd ON@1s, 1: upd ON@2s, 2: upd OFF, 3: delete, 4: add ON, 5: add OFF) on item a (OFF) of a Collection WithNoDuplicates: delivered %v, owed %v", sq, got, want), nil)
+			}
+		}
+	}
+}
+
 // ---------------------------------------------------------------- stream clause
 
 func checkStreams(s *hx.Seq) {
@@ -1082,6 +1181,7 @@ func main() {
 		checkMaskedStreams(s)
 		checkLifecycleStreams(s)
 		checkNoDuplicates(s)
+		checkNoDuplicatesLifecycle(s)
 		s.Distinct("value")
 		s.Distinct("collection")
 		s.Sample("Value and Collection with WithMessageEquivalence(Equal(FloatValueApprox(0,0.1))): all write sequences of length <=3 over {1, 1.0625, 1.125, 1.25}, delivered values compared with the reference")
